@@ -615,7 +615,14 @@ func main() {
 	}
 
 	probe := skiplist.NewWithSource[int, int64](ord.Int, &scripted{})
-	levels, tab := skiplist.VerifTable[int, int64](probe)
+	tab := skiplist.VerifTable[int, int64](probe)
+	// the number of levels is what the printed head shows
+	p0, perr := parsePrint(probe.(fmt.Stringer).String(), func(s string) (int64, error) { return strconv.ParseInt(s, 10, 64) })
+	if perr != nil || len(p0) == 0 {
+		fmt.Fprintln(os.Stderr, "cannot read the head of an empty list:", perr)
+		os.Exit(2)
+	}
+	levels := len(p0[0].F)
 	g := &G{rng: rand.New(rand.NewSource(seed)), levels: levels, tab: tab}
 	_ = maplike.MapLike[int, int64](probe)
 
